@@ -245,14 +245,14 @@ def hostText (h : Str) : Str :=
   else h
 
 open Extracted in
-/-- `if self.host: uri += <host text>; if self.port: uri += ':%d' % self.port` -/
+/-- `if self.host: uri += <host text>` then `if self.port: uri += ':%d' % self.port` -/
 def hostportOf (c : Conn) : Str :=
-  match truthyS c.host with
-  | some h =>
-    match truthyI c.port with
-    | some p => hostText h ++ portSep ++ fmtD p
-    | none => hostText h
-  | none => []
+  (match truthyS c.host with
+   | some h => hostText h
+   | none => []) ++
+  (match truthyI c.port with
+   | some p => portSep ++ fmtD p
+   | none => [])
 
 open Extracted in
 /-- `db = self.db; if db.startswith('/'): db = db[1:]` -/
